@@ -12,7 +12,18 @@
 //! never more than the hard limit, accounting returns to zero), `free` (uncontrolled: real threads on one GrafeoDB
 //! behind a barrier, repeated; ids unique, acknowledged creations visible, derived structures agree with the
 //! primary data at quiescence, commit epochs unique and increasing, no panic, terminates).
+//!
+//! Further uncontrolled sub-checks cover the shared components the schedule hooks do not reach (each in its own
+//! file, plumbing in `free_util.rs`): `free_sessions` (sessions executing GQL / Cypher on one database; plan cache),
+//! `free_wal` (WalManager: log / sync / rotate / checkpoint, recovery at the end), `free_hnsw` (HnswIndex),
+//! `free_catalog`, `free_arena`, `free_grant` (MemoryGrant resize / split / merge on one BufferManager) and
+//! `free_cache` (QueryCache) in `free_misc.rs`.
 
+mod free_hnsw;
+mod free_misc;
+mod free_sessions;
+mod free_util;
+mod free_wal;
 mod sched;
 
 use std::collections::{BTreeMap, BTreeSet};
@@ -775,11 +786,27 @@ fn run_free(c: &FreeCase) -> CaseResult {
         }
     }
     // derived structures agree with the primary data: rebuild C14's model from the primary enumeration
-    let store = db.store();
+    if let Err(f) = reconstruct_and_battery(db.store(), &ns, &es, c.index_x, "free") {
+        // the recorded race (C20-indexed-property-write-race) reached by real threads: x is indexed, at least two
+        // threads write x of a node (only shared nodes can be written by two threads) and the only disagreement is an
+        // index-path lookup
+        let x_writers = (0..n).filter(|t| c.programs[*t].iter().any(|(kind, _, b)| *kind == 2 && b % 2 == 0)).count();
+        if c.index_x && x_writers >= 2 && f.signature.contains("/indexed/") {
+            return crate::driver::ok_with_known(false, "explained-by-indexed-set-race", hash_dbg(c), vec!["c20/known/indexed-property-write-race".to_string()]);
+        }
+        return Err(f);
+    }
+    ok(n >= 2 && all_nodes.len() > 3, format!("{n}thr"), hash_dbg(c))
+}
+
+/// Rebuilds C14's model from the primary data (`get_node` / `get_edge` of every id ever handed out: present ones
+/// with their labels and properties, absent ones as deleted) and runs C14's full battery of derived-structure
+/// cross-checks against it. `ns` / `es` must be sorted and free of duplicates.
+pub(super) fn reconstruct_and_battery(store: &LpgStore, ns: &[u64], es: &[u64], index_x: bool, sub: &str) -> Result<(), Failure> {
     let mut model = Model::new(true);
     let mut ids = IdMap::new();
     for nid in ns.iter() {
-        let m = ids.bind_node(NodeId::new(*nid)).map_err(|f| Failure { signature: format!("c20/free/{}", f.signature), what: f.what })?;
+        let m = ids.bind_node(NodeId::new(*nid)).map_err(|f| Failure { signature: format!("c20/{sub}/{}", f.signature), what: f.what })?;
         match store.get_node(NodeId::new(*nid)) {
             Some(nd) => {
                 let mut mn = MNode::default();
@@ -802,7 +829,7 @@ fn run_free(c: &FreeCase) -> CaseResult {
     }
     model.next_node = ns.len() as u64;
     for eid in es.iter() {
-        let m = ids.bind_edge(EdgeId::new(*eid)).map_err(|f| Failure { signature: format!("c20/free/{}", f.signature), what: f.what })?;
+        let m = ids.bind_edge(EdgeId::new(*eid)).map_err(|f| Failure { signature: format!("c20/{sub}/{}", f.signature), what: f.what })?;
         match store.get_edge(EdgeId::new(*eid)) {
             Some(ed) => {
                 let ty = TYPES.iter().position(|x| *x == ed.edge_type.as_str()).unwrap_or(0) as u8;
@@ -814,21 +841,13 @@ fn run_free(c: &FreeCase) -> CaseResult {
         }
     }
     model.next_edge = es.len() as u64;
-    if c.index_x {
+    if index_x {
         model.indexes.insert(0);
     }
-    if let Err(f) = battery(store, &model, &ids) {
-        // real threads writing one shared node's indexed key: the listed index-update / property-write race
-        // (only index-path lookups disagree; everything else in the battery must still hold)
-        if c.index_x && f.signature.contains("/indexed/") {
-            return crate::driver::ok_with_known(false, format!("{n}thr/indexed-write-race"), hash_dbg(c), vec!["c20/known/indexed-property-write-race".to_string()]);
-        }
-        return Err(Failure {
-            signature: format!("c20/free/derived-structures-disagree:{}", f.signature),
-            what: format!("after {n} threads finished: {}", f.what),
-        });
-    }
-    ok(n >= 2 && all_nodes.len() > 3, format!("{n}thr"), hash_dbg(c))
+    battery(store, &model, &ids).map_err(|f| Failure {
+        signature: format!("c20/{sub}/derived-structures-disagree:{}", f.signature),
+        what: format!("after the threads finished: {}", f.what),
+    })
 }
 
 pub fn run(r: &mut Run) {
@@ -837,8 +856,18 @@ pub fn run(r: &mut Run) {
               between the critical sections inside LpgStore / RdfStore / BufferManager operations and at op boundaries); oracle = some sequential order \
               explains every return value and the final state under C14's full battery / all RDF pattern shapes; non-trivial = at least one preemption at \
               an interior yield point and two threads touch a common entity (for rdf: the same triple; for buffer: >= 2 grants). free: real threads on one \
-              GrafeoDB behind a barrier; non-trivial = >= 2 threads that created entities. distinct by hash of the case."
+              GrafeoDB behind a barrier; non-trivial = >= 2 threads that created entities. free_*: generated programs for 2-4 real threads \
+              on one shared component (sessions + plan cache on one GrafeoDB; WalManager with tiny max_log_size; HnswIndex; Catalog; \
+              ArenaAllocator; grants on one BufferManager; QueryCache), each case repeated (2x quick, 4x thorough) behind a start gate \
+              (condvar barrier + bounded spin rendezvous); verdicts are functions of returned values and of the state at quiescence / at \
+              a barrier, never of timing; non-trivial = >= 2 threads write (sessions: and both languages read; wal: and the log rotates; \
+              hnsw: and some thread searches and some thread removes; catalog: two threads create the same name; cache: >= 2 putters \
+              and >= 2 getters). distinct by hash of the case."
         .into();
+    r.assumptions.push("free_* sub-checks sample interleavings the OS produces; a failure there is reported with the programs but may need several replays to show again (rates are in known_findings / corpus notes)".into());
+    r.assumptions.push("free_* liveness: a run whose threads do not all finish within 120 s is reported as <sub>/stall (the stuck threads are left behind)".into());
+    r.assumptions.push("free_sessions: INSERT / create_node_with_props is node creation followed by property writes (a composite, like DETACH DELETE): a concurrent reader may see the node with x = NULL; reads over labels A/B are only checked for ids, columns and x, because dirty reads and in-place writes are recorded under C01/C02".into());
+    r.assumptions.push("free_wal: a checkpoint declares everything logged before it dispensable; only records whose log call is ordered after every checkpoint of the case (program order / barrier) are owed by recovery".into());
     r.assumptions.push("only interleavings at the instrumented yield points are owned by the harness; races inside a critical section or on relaxed atomics are reached only by the uncontrolled 'free' sub-check, which samples".into());
     r.assumptions.push("yield points are placed only where no lock is held, so a controlled run cannot self-deadlock; a run without progress for 120 s is reported as a stall".into());
     let thorough = r.is_thorough();
@@ -856,4 +885,24 @@ pub fn run(r: &mut Run) {
     r.subcheck("tm_threads", r.cases(600, 60_000), move || crate::props::c03::threaded_strategy(if thorough { 8 } else { 6 }), |c| {
         crate::props::c03::check_threaded(c).map_err(|f| Failure { signature: f.signature.replacen("c03/", "c20/tm/", 1), what: f.what })
     });
+
+    // uncontrolled sub-checks for the shared components no schedule controls (sessions + plan cache, WAL manager,
+    // HNSW, catalog, arena, grants, query cache): real threads behind a start gate, every case repeated `reps` times,
+    // a watchdog instead of a join; verdicts are functions of returned values and of the state at quiescence
+    let (ops, reps) = if thorough { (40, 4u8) } else { (24, 2u8) };
+    r.subcheck("free_sessions", r.cases(500, 20_000), move || free_sessions::strategy(ops, reps), free_sessions::run_case);
+    r.note(format!(
+        "free_sessions: {} rows read over A/B named a node inserted by another thread (overlap witness; timing-dependent, not part of any verdict)",
+        free_sessions::FOREIGN_ROWS.load(std::sync::atomic::Ordering::Relaxed)
+    ));
+    r.subcheck("free_wal", r.cases(500, 20_000), move || free_wal::strategy(ops / 2, reps), free_wal::run_case);
+    r.subcheck("free_hnsw", r.cases(600, 20_000), move || free_hnsw::strategy(ops, reps), free_hnsw::run_case);
+    r.note(format!(
+        "free_hnsw: {} search results named an id owned by another thread (overlap witness; timing-dependent, not part of any verdict)",
+        free_hnsw::FOREIGN_HITS.load(std::sync::atomic::Ordering::Relaxed)
+    ));
+    r.subcheck("free_catalog", r.cases(400, 15_000), move || free_misc::catalog_strategy(ops, reps), free_misc::run_catalog);
+    r.subcheck("free_arena", r.cases(400, 15_000), move || free_misc::arena_strategy(ops, reps), free_misc::run_arena);
+    r.subcheck("free_grant", r.cases(300, 10_000), move || free_misc::grant_strategy(reps), free_misc::run_grant);
+    r.subcheck("free_cache", r.cases(400, 15_000), move || free_misc::cache_strategy(ops, reps), free_misc::run_cache);
 }
